@@ -68,11 +68,9 @@ func (r *run) lifecycle() {
 		s.Probe("c12.evicted")
 		if scenario == 2 {
 			// the same clients come back: new sessions must work
-			before := map[int]int{}
+			mark := map[int]int{}
 			for _, se := range r.sess {
-				for _, p := range se.sent {
-					before[se.idx] += p.replied
-				}
+				mark[se.idx] = se.nextSeq
 			}
 			establish(true)
 			if s.Failed() {
@@ -80,16 +78,34 @@ func (r *run) lifecycle() {
 			}
 			if !r.faulty {
 				for _, se := range r.sess {
-					after := 0
-					for _, p := range se.sent {
-						after += p.replied
+					// a datagram that reached its destination and was answered with a reply small
+					// enough for every MTU must have its reply delivered through the new session
+					answered, got := 0, 0
+					for q, p := range se.sent {
+						if q >= mark[se.idx] && p.replySent > 0 {
+							answered++
+							if p.replied > 0 {
+								got++
+							}
+						}
 					}
-					allReject := true
+					arrived := 0
+					for q, p := range se.sent {
+						if q >= mark[se.idx] && p.arrived > 0 {
+							arrived++
+						}
+					}
+					sentNew := se.nextSeq - mark[se.idx]
+					allReject := false
 					for _, t := range se.targets {
-						allReject = allReject && t.reject
+						allReject = allReject || t.reject
 					}
-					if after == before[se.idx] && !allReject && r.reachable(se) {
-						r.fail("no-restart-after-eviction", "session %d sent datagrams after its NAT entry had been evicted but got no reply on a network that lost nothing", se.idx)
+					if sentNew > 0 && arrived == 0 && !allReject && r.reachable(se) {
+						r.fail("no-restart-after-eviction", "session %d sent %d datagram(s) after its NAT entry had been evicted but none reached its destination on a network that lost nothing", se.idx, sentNew)
+						return
+					}
+					if answered > 0 && got == 0 {
+						r.fail("no-restart-after-eviction", "session %d: %d datagram(s) sent after the eviction were answered by their destination but no reply came back on a network that lost nothing", se.idx, answered)
 						return
 					}
 				}
@@ -102,7 +118,8 @@ func (r *run) lifecycle() {
 	var stopDelay time.Duration
 	switch scenario {
 	case 0:
-		stopDelay = time.Duration(s.Choose(2000)) * time.Microsecond * time.Duration(1+s.Choose(50))
+		// while the burst below is in the relay's pipeline (client write -> latency -> relay)
+		stopDelay = r.e.W.UDPLatency + time.Duration(s.Choose(3000))*time.Microsecond
 	case 3:
 		stopDelay = time.Duration(s.Choose(400)) * time.Microsecond
 	default:
@@ -114,23 +131,37 @@ func (r *run) lifecycle() {
 		s.Go("busy-traffic", func() {
 			defer close(done)
 			// fresh client ends, so that sessions are being initialised while the service stops
-			for i := 0; i < 2+s.Choose(6) && !r.stopped; i++ {
+			for i, n := 0, 2+s.Choose(10); i < n && !r.stopped; i++ {
 				se := r.sess[s.Choose(len(r.sess))]
 				if scenario == 3 || s.GenChance(96) {
 					old := se.end.Rebind(e.Client, se.end.Sock.LocalAddrPort().Addr())
 					old.Close()
 				}
 				r.send(se, se.targets[s.Choose(len(se.targets))], util.Pick(s, []int{tagLen, 100, 1000}), false)
-				s.Sleep(time.Duration(s.Choose(300)) * time.Microsecond)
+				if s.GenChance(160) {
+					s.Sleep(time.Duration(s.Choose(300)) * time.Microsecond)
+				}
 			}
 		})
 	} else {
 		close(done)
 	}
 	s.Sleep(stopDelay)
+	// Simulated time only advances when nothing can run, so after a sleep the relay is quiescent.
+	// To stop it in the middle of its work, take a drawn number of scheduling steps side by side
+	// with the traffic before cancelling.
+	for i, k := 0, s.Choose(80); i < k; i++ {
+		simrt.Yield()
+	}
 	r.stopped = true
 	inFlight := len(w.Default.UDPSockets("repo")) - r.baselineSockets
 	const bound = 5 * time.Second
+	for _, pk := range s.Parked() {
+		if strings.HasPrefix(pk, "udp.sendmmsg") || strings.HasPrefix(pk, "udp.write") {
+			s.Probe("c12.stop-with-write-pending")
+			break
+		}
+	}
 	d, ok := e.Stop(r.natTimeout + time.Minute)
 	<-done
 	s.Param("stop", fmt.Sprintf("delay=%v took=%v sessionsAtStop=%d busy=%v", stopDelay, d, inFlight, busy))
